@@ -36,22 +36,24 @@ def block3 (l : List K) : List K := sub 6 [0, 1, 2] l
 hypotheses): the 2D components (11, 22, 33, 12) are the 3D components (11, 33, 22, 13) -/
 def pipe4 (l : List K) : List K := sub 6 [0, 2, 1, 4] l
 
-/-- Schur complement entry with respect to the component of index 2 (33): the stiffness seen by
-the other components when the stress component 2 vanishes -/
-def sc (n : Nat) (l : List K) (i j : Nat) : K := ent n l i j - ent n l i 2 * ent n l 2 j / ent n l 2 2
+/-- Schur complement entry with respect to the component of index `k`: the stiffness seen by the other
+components when the stress component `k` vanishes (static condensation of the strain component `k`) -/
+def sc (n : Nat) (l : List K) (k i j : Nat) : K := ent n l i j - ent n l i k * ent n l k j / ent n l k k
 
-/-- plane stress condensation of a 2D tensor: Schur complement w.r.t. component 33, rows and
-columns 33 zeroed -/
+/-- plane stress condensation of a 2D tensor (components 11,22,33,12): the stress-free direction is the
+third one (`zz`, index 2; docs/web/HookeStressPotential.md: `feel(2) += detozz`); rows and columns 2 zeroed -/
 def condense4 (l : List K) : List K :=
-  [sc 4 l 0 0, sc 4 l 0 1, 0, sc 4 l 0 3,
-   sc 4 l 1 0, sc 4 l 1 1, 0, sc 4 l 1 3,
+  [sc 4 l 2 0 0, sc 4 l 2 0 1, 0, sc 4 l 2 0 3,
+   sc 4 l 2 1 0, sc 4 l 2 1 1, 0, sc 4 l 2 1 3,
    0, 0, 0, 0,
-   sc 4 l 3 0, sc 4 l 3 1, 0, sc 4 l 3 3]
-/-- same for a 1D tensor -/
+   sc 4 l 2 3 0, sc 4 l 2 3 1, 0, sc 4 l 2 3 3]
+/-- axisymmetrical generalised plane stress condensation of a 1D tensor (components `rr, zz, tt`): the
+axial direction is the second one (index 1; docs/web/HookeStressPotential.md: `feel(1) += detozz`);
+row and column 1 zeroed -/
 def condense3 (l : List K) : List K :=
-  [sc 3 l 0 0, sc 3 l 0 1, 0,
-   sc 3 l 1 0, sc 3 l 1 1, 0,
-   0, 0, 0]
+  [sc 3 l 1 0 0, 0, sc 3 l 1 0 2,
+   0, 0, 0,
+   sc 3 l 1 2 0, 0, sc 3 l 1 2 2]
 
 /-- matrix–vector product of a 6×6 list with a 6-list (storage of a symmetric tensor) -/
 def apply6 (l e : List K) : List K :=
